@@ -159,6 +159,24 @@ impl std::fmt::Debug for SimEngine {
     }
 }
 
+impl SimEngine {
+    /// An empty store for the given instance (used by harnesses that only need an EngineManager).
+    pub fn new_empty(w: &World) -> Self {
+        SimEngine(Arc::new(SimEngineInner {
+            genesis: w.c.genesis.clone(),
+            persisted: sync::watch::channel(BlockStoreState { first: w.c.genesis.first_block, last: None }).0,
+            blocks: Mutex::new(vec![]),
+            state: Mutex::new(ReplicaState::default()),
+            proposals: vec![validator::Payload(vec![1])],
+            invalid: w.invalid_payload.clone(),
+            set_state_calls: AtomicUsize::new(0),
+            crash: None,
+            crashed: AtomicBool::new(false),
+            bad_store_request: Mutex::new(None),
+        }))
+    }
+}
+
 #[async_trait::async_trait]
 impl EngineInterface for SimEngine {
     async fn genesis(&self, _ctx: &ctx::Ctx) -> ctx::Result<validator::Genesis> {
